@@ -72,6 +72,8 @@ func runC17(c *Ctx) error {
 	items := map[string][]*DFeed{}
 	for _, j := range jobs {
 		pool := model.InputPool(inRng, j.CFG, nItems, 3)
+		// deep inputs (stack beyond its initial capacity), several of them so that goroutines overlap on them
+		pool = append(pool, model.LongSentences(inRng, j.CFG, 12, 110)...)
 		var fs []*DFeed
 		for _, in := range pool {
 			f := &DFeed{Toks: j.Names(in), Fail: -1, Render: true}
